@@ -78,7 +78,9 @@ def obsLines (s : St) (tag : String) (w0 w : World) (o : Outcome) : List String 
     s!"{tag} relabelled {showNats ((range w.n).filter fun i => (w.label i).tag.isSome)}",
     s!"{tag} starting " ++ " ".intercalate (s.comps.map fun p => s!"{p}:{showNats (w.starting p)}"),
     s!"{tag} automate " ++ " ".intercalate (s.wfs.map fun p => s!"{p}:{bit (w.automate p)}"),
-    s!"{tag} failed {showNats ((range w.n).filter fun i => w.failed i)}" ]
+    s!"{tag} failed {showNats ((range w.n).filter fun i => w.failed i)}",
+    -- every connection list is literally the one from before the pull
+    s!"{tag} ordered {bit ((range (6 * w.n)).all fun c => w.g.conns c == w0.g.conns c)}" ]
 
 def splitSlash (ws : List String) : Option (List String × List String) :=
   match ws.span (· ≠ "/") with
